@@ -21,7 +21,8 @@ META = {
              "dev flag) -- all 8 388 608 in the thorough tier, a boundary-complete 300k subset in quick -- checking "
              "tuple->encoding->int->tuple identity and encoding == major*2^21+minor*2^11+patch*2+released, comparison "
              "operators on generated pairs and on all pairs within +-3 encodings of each gate, setuptools_scm-style "
-             "version strings, and reader behaviour on spec-written files stamped on both sides of each gate; "
+             "version strings, reader behaviour on spec-written files stamped on both sides of each gate, and the cropper and "
+             "re-blocker applied to spec-written files stamped at every encoding within +-3 of each gate (output validated as in (a)); "
              "non-trivial pipeline = >=2 footer arrays or 4*n_traces %% 512 != 0 or length >= 2; distinct = "
              "(program shape, n_arrays class, stride class, layout, version)"),
     "assumptions": [
@@ -428,9 +429,71 @@ def run_gate_file(case, ctx):
     return {"sig": ["gate", case["enc"], len(case["arrays"]), (4 * T.n_tr) % 512 == 0], "labels": ["gate-file"]}
 
 
+# gates x writers: the cropper and the re-blocker applied to files of every version within +-3 encodings of each gate
+@st.composite
+def gate_op_cases(draw):
+    gate = draw(st.sampled_from([spec.V_0_1_6, spec.V_0_2_1, spec.V_0_2_1]))
+    enc = gate + draw(st.integers(-3, 3))
+    m, mi, p, rel = spec.vdec(enc)
+    vs = f"{m}.{mi}.{p}" + ("" if rel else ".dev")
+    op = draw(st.sampled_from(["crop", "crop", "reblock"]))
+    n_il, n_xl = draw(st.sampled_from([(8, 16), (4, 32), (9, 14), (16, 16), (5, 7), (12, 12), (3, 40)]))
+    ns = draw(st.integers(2, 12))
+    desc = {"kind": "spec", "family": "4x4", "rate": 2 if op == "reblock" else draw(st.sampled_from([2, 4, 8])),
+            "shape": [n_il, n_xl, ns], "version": vs, "values": draw(gen.values_spec),
+            "il": list(draw(gen.line_axis(n_il))), "xl": list(draw(gen.line_axis(n_xl))),
+            "z0": draw(st.sampled_from([0, 100, -4])), "dz_us": draw(st.sampled_from([4000, 2000, 1000])),
+            "arrays": sorted([189, 193] + draw(st.lists(st.sampled_from([1, 5, 73, 181]), max_size=3, unique=True))),
+            "dups": [list(q) for q in draw(st.lists(st.sampled_from([(197, 189), (185, 181), (9, 5)]), max_size=1))],
+            "pad_last": draw(st.booleans()), "zero_bs": False}
+    desc["blockshape"] = [4, 4, 32768 // (16 * desc["rate"])]
+    case = {"file": desc, "enc": enc, "op": op}
+    if op == "crop":
+        case["f"] = [draw(st.floats(0, 1)) for _ in range(4)]
+        case["axes"] = draw(st.sampled_from([[0], [1], [0, 1], [0, 1]]))
+    return case
+
+
+def run_gate_op(case, ctx):
+    from seismic_zfp.cropping import SgzCropper
+    from seismic_zfp.conversion import SgzConverter
+    from .c10 import source_stage
+    d = ctx.tmp()
+    path, T = files.build(case["file"], d, "src.sgz")
+    src = source_stage(T)
+    out = os.path.join(d, "out.sgz")
+    if case["op"] == "crop":
+        n = (T.n_il, T.n_xl)
+        box = [None, None, None]
+        for a in case["axes"]:
+            lo = int(case["f"][2 * a] * (n[a] - 1))
+            hi = lo + 1 + int(case["f"][2 * a + 1] * (n[a] - lo - 1))
+            box[a] = (lo, hi)
+        c = SgzCropper(path)
+        try:
+            c.write_cropped_file_by_indexes(out, box[0], box[1], box[2])
+        finally:
+            c.close()
+        want, _ = stages.crop_stage(src, box)
+        sh = bytearray(T.raw[4096:4096 + 3600])
+        sh[3220:3222] = struct.pack(">H", len(want.samples))
+        want.segy_header = bytes(sh)
+    else:
+        c = SgzConverter(path)
+        try:
+            c.convert_to_adv_sgz(out)
+        finally:
+            c.close()
+        want = stages.reblock_stage(src)
+        want.segy_header = T.raw[4096:4096 + 3600]
+    s = stages.check_file(out, want, f"gate-{case['op']}")
+    return {"sig": ["gate-op", case["op"], case["enc"], min(s.n_arrays, 4), s.array_len % 512 != 0],
+            "labels": ["gate-op:" + case["op"], "gate-op-stride-odd" if s.array_len % 512 else "gate-op-stride512"]}
+
+
 def run_case(case, ctx):
     return {"pipeline": run_pipeline, "version_pairs": run_version_pair, "version_strings": run_version_string,
-            "gates": run_gate_file, "version_enum": run_version_tuple}[case["check"]](case, ctx)
+            "gates": run_gate_file, "gate_ops": run_gate_op, "version_enum": run_version_tuple}[case["check"]](case, ctx)
 
 
 def shard_main(ctx):
@@ -444,6 +507,8 @@ def shard_main(ctx):
     if not ctx.explore("version_strings", version_string_cases(), run_case, ctx.n(300, 20000)):
         return
     if not ctx.explore("gates", gate_file_cases(), run_case, ctx.n(40, 1500)):
+        return
+    if not ctx.explore("gate_ops", gate_op_cases(), run_case, ctx.n(40, 1500)):
         return
     ctx.explore("pipeline", pipeline_cases(), run_case, ctx.n(100, 1200))
 
